@@ -140,7 +140,7 @@ func (r *Run) c11GraphLookups() {
 	}
 
 	// --- From / To: every control node wired to the id is listed
-	nw := p.Func(PkgN, "Network.nodeWithID")
+	nw := p.FuncOpt(PkgN, "Network.nodeWithID") // nil: the search is inlined / written out (c11Lookup)
 	for _, name := range []string{"From", "To"} {
 		fn := p.Func(PkgN, "Network."+name)
 		r.Fn(FuncName(fn))
@@ -299,9 +299,10 @@ func (r *Run) c11GraphLookups() {
 		r.Check(skipped == nil, "graph."+name+".control-nodes.scan", pf, "every "+side+" link of every control node is compared with the id until one matches",
 			name+" can pass over a control node without having compared all of its "+side+" links with the id: a module wired to the node is then missing from the result although Edge/HasEdgeFromTo report the edge", skipped...)
 		// (reached) for a present node every result comes after the loop over the control nodes has run to its end
+		lk := newC11Lookup(fn, tf, nw)
 		absent := func(b *ssa.BasicBlock) bool {
 			for _, g := range Guards(b) {
-				if x, y, isEq := eqCond(tf, g); isEq && ((isCallTo(x, nw) && y.Op == "nil") || (isCallTo(y, nw) && x.Op == "nil")) {
+				if lk.absent(g) {
 					return true
 				}
 			}
